@@ -1023,7 +1023,7 @@ func (q *setAParser) primary() int64 {
 	switch {
 	case c == '(':
 		q.pos++
-		v := q.addsub()
+		v := q.bitor()
 		q.skip()
 		if q.pos >= len(q.s) || q.s[q.pos] != ')' {
 			q.m.scriptError("set /A: unbalanced parenthesis in %q", q.s)
@@ -1113,6 +1113,58 @@ func (q *setAParser) muldiv() int64 {
 	}
 }
 
+// bit operators of set /A in cmd's documented order of precedence (below + and -): << >>, then &, then ^, then |.
+// Operands are 32-bit two's-complement values; >> is an arithmetic shift; shift counts outside 0..31 are left to
+// the "unmodelled" verdict (cmd's behaviour there is not documented).
+func (q *setAParser) shift() int64 {
+	v := q.addsub()
+	for {
+		q.skip()
+		if q.pos+1 >= len(q.s) || (q.s[q.pos:q.pos+2] != "<<" && q.s[q.pos:q.pos+2] != ">>") {
+			return v
+		}
+		op := q.s[q.pos : q.pos+2]
+		q.pos += 2
+		r := q.addsub()
+		if r < 0 || r > 31 {
+			q.m.unmodelled("set /A shift count %d", r)
+		}
+		if op == "<<" {
+			v = wrap32(int64(int32(v) << uint(r)))
+		} else {
+			v = wrap32(int64(int32(v) >> uint(r)))
+		}
+	}
+}
+
+func (q *setAParser) bitLevel(ops string, next func() int64) int64 {
+	v := next()
+	for {
+		q.skip()
+		if q.pos >= len(q.s) || !strings.ContainsRune(ops, rune(q.s[q.pos])) {
+			return v
+		}
+		if q.pos+1 < len(q.s) && (q.s[q.pos+1] == '=' || q.s[q.pos+1] == q.s[q.pos]) {
+			return v // &= |= ^= && ||: not operators of this level
+		}
+		c := q.s[q.pos]
+		q.pos++
+		r := next()
+		switch c {
+		case '&':
+			v = wrap32(int64(int32(v) & int32(r)))
+		case '^':
+			v = wrap32(int64(int32(v) ^ int32(r)))
+		case '|':
+			v = wrap32(int64(int32(v) | int32(r)))
+		}
+	}
+}
+
+func (q *setAParser) bitor() int64 {
+	return q.bitLevel("|", func() int64 { return q.bitLevel("^", func() int64 { return q.bitLevel("&", q.shift) }) })
+}
+
 func (q *setAParser) addsub() int64 {
 	v := q.muldiv()
 	for {
@@ -1145,11 +1197,15 @@ func (m *CmdModel) execSetA(rest string) {
 		m.unmodelled("set /A compound assignment %q", arg)
 	}
 	q := &setAParser{m: m, s: arg[k+1:]}
-	v := q.addsub()
+	v := q.bitor()
 	q.skip()
 	if q.pos < len(q.s) {
 		if q.s[q.pos] == ',' {
 			m.unmodelled("set /A with several expressions")
+		}
+		if strings.ContainsAny(q.s[q.pos:q.pos+1], "<>&|^~!") {
+			// shift, bitwise and logical operators are legal in set /A but outside this model's arithmetic
+			m.unmodelled("set /A operator %q", q.s[q.pos:q.pos+1])
 		}
 		m.scriptError("set /A: trailing %q in %q", q.s[q.pos:], arg)
 	}
